@@ -43,6 +43,16 @@ impl ValidationContext {
                     self.validate_nodes_diverts(branch, "")?;
                 }
             }
+            Node::TunnelOnwardsWithTarget { target, .. } => self.check_target(target)?,
+            Node::Tag(tag) => {
+                for part in &tag.parts {
+                    if let DynamicStringPart::Sequence(seq) = part {
+                        for branch in &seq.branches {
+                            self.validate_nodes_diverts(branch, "")?;
+                        }
+                    }
+                }
+            }
             _ => {}
         }
         Ok(())
@@ -130,9 +140,24 @@ impl ValidationContext {
                     self.validate_expr_function_calls(arg)?;
                 }
             }
-            Node::TunnelDivert { args, .. } => {
+            Node::TunnelDivert { args, .. } | Node::TunnelOnwardsWithTarget { args, .. } => {
                 for arg in args {
                     self.validate_expr_function_calls(arg)?;
+                }
+            }
+            Node::Tag(tag) => {
+                for part in &tag.parts {
+                    match part {
+                        DynamicStringPart::Expression(expr) => {
+                            self.validate_expr_function_calls(expr)?
+                        }
+                        DynamicStringPart::Sequence(seq) => {
+                            for branch in &seq.branches {
+                                self.validate_nodes_function_calls(branch)?;
+                            }
+                        }
+                        DynamicStringPart::Text(_) => {}
+                    }
                 }
             }
             _ => {}
